@@ -26,12 +26,14 @@ const (
 	c_late_huge_claim_strings
 	c_exh_nontrivial_pairs
 	c_info_raw_value_prefixed_single_byte_accepted
+	c_dirty_destination_checks
+	c_dirty_destination_accepted
 	nCtr
 )
 
 var cnt [nCtr]int64
 
-var cntNames = [nCtr]string{"accepted", "alloc_checks", "bytes_cases", "count_checks", "exh_strings", "hostile_strings", "mutated_strings", "reader_checks", "reencode_checks", "rejected_grammatical", "rejected_ungrammatical", "split_accepted", "split_checks", "stream_walks", "stream_walks_accepted", "suffix_checks", "value_roundtrips", "reader_skipped_dangerous_claim", "pairs_skipped_quarantined_type", "late_huge_claim_strings", "exh_nontrivial_pairs", "info_raw_value_prefixed_single_byte_accepted"}
+var cntNames = [nCtr]string{"accepted", "alloc_checks", "bytes_cases", "count_checks", "exh_strings", "hostile_strings", "mutated_strings", "reader_checks", "reencode_checks", "rejected_grammatical", "rejected_ungrammatical", "split_accepted", "split_checks", "stream_walks", "stream_walks_accepted", "suffix_checks", "value_roundtrips", "reader_skipped_dangerous_claim", "pairs_skipped_quarantined_type", "late_huge_claim_strings", "exh_nontrivial_pairs", "info_raw_value_prefixed_single_byte_accepted", "dirty_destination_checks", "dirty_destination_accepted"}
 
 func flushCounts(r *mon.Run) {
 	for i, n := range cnt {
